@@ -87,7 +87,7 @@ pub fn plan(prop: &str, tier: Tier, cfg_b: bool) -> Option<Plan> {
     let mut r = RunProfile::new(apis);
     let mut wide_every = 0;
     let mut exh_access = false;
-    let base: u64 = if q { 120_000 } else { 3_000_000 };
+    let base: u64 = if q { 400_000 } else { 4_000_000 };
     let mut random_cases = base;
     match prop {
         "C01" => {
@@ -675,6 +675,25 @@ pub fn run(opts: &Opts, cfg_b: bool) -> Option<Stats> {
             }
         });
         total.merge(rtm);
+    }
+    // ---- phase 4 (C05 only): FnRefs dropped on other threads, natively (thorough repeats it under TSan / Miri) ----
+    if prop == "C05" {
+        let xcases = ((if opts.tier == Tier::Quick { 600 } else { 20_000 }) as f64 * opts.scale) as u64;
+        let xt = par_for(opts.jobs.min(4), xcases, 4, Some(deadline), |st: &mut Stats, i: u64, _slot: &Slot| {
+            let mut rng = Rng::new(mix(seed ^ 0x7874, i));
+            let gs = crate::threads::small_conflicting_graph(&mut rng, 8);
+            let mut xs = crate::threads::XStats::default();
+            let out = crate::threads::xthread_stream(&gs, mix(seed, i), 1 + (i % 3) as usize, i % 2 == 1, &mut xs);
+            st.evaluations += 1;
+            st.count("cross_thread.runs");
+            st.add("cross_thread.fnrefs_dropped_on_other_threads", xs.cross_thread_drops);
+            st.add("cross_thread.yields", xs.yields);
+            st.add("events", xs.yields + xs.cross_thread_drops);
+            for v in out.iter().filter(|v| v.prop == "C05") {
+                st.violation(v, format!("g={}|xthread_seed={}", gs.encode(), mix(seed, i)), String::new());
+            }
+        });
+        total.merge(xt);
     }
     Some(total)
 }
